@@ -568,9 +568,12 @@ type raceResult struct {
 	seq  int
 }
 
+var lastRaceBranching []int // branching of the most recent execution (executions are sequential)
+
 func runRace(c RaceCase, o *vt.Obs) *vt.Failure {
 	w := gate.NewWorld()
 	w.Batch = c.Batch
+	defer func() { lastRaceBranching = w.Branching }()
 	var mu sync.Mutex
 	var results []raceResult
 	seq := 0
@@ -676,6 +679,67 @@ func TestC14Race(t *testing.T)        { vt.Check(t, prop, genRace, runRace) }
 func TestC14RaceReplay(t *testing.T)  { vt.Replay(t, prop, runRace) }
 func TestC14RaceRegress(t *testing.T) { vt.Regress(t, prop, "testdata", runRace) }
 
+// TestC14RaceExhaustive enumerates ALL schedules (each exactly once, DFS over the scheduler's choice points) of two managers running
+// every pair of programs of up to 2 calls (thorough: 3 calls for the first manager) over {create a, create b, delete a}, without and
+// with batched application of simultaneously parked writes.
+func TestC14RaceExhaustive(t *testing.T) {
+	calls := []RCall{{Kind: "create", Name: "a"}, {Kind: "create", Name: "b"}, {Kind: "delete", Name: "a"}}
+	var progs [][]RCall
+	var build func(cur []RCall, maxN int)
+	build = func(cur []RCall, maxN int) {
+		if len(cur) > 0 {
+			progs = append(progs, append([]RCall(nil), cur...))
+		}
+		if len(cur) == maxN {
+			return
+		}
+		for _, k := range calls {
+			build(append(cur, k), maxN)
+		}
+	}
+	build(nil, 2)
+	st := vt.NewManualStats(prop, t.Name())
+	defer st.Flush()
+	schedules := 0
+	for _, batch := range []bool{false, true} {
+		for _, pa := range progs {
+			for _, pb := range progs {
+				var dfs func(prefix []int) *vt.Failure
+				dfs = func(prefix []int) *vt.Failure {
+					c := RaceCase{Programs: [][]RCall{pa, pb}, Schedule: prefix, Batch: batch}
+					o := &vt.Obs{}
+					f := runRace(c, o)
+					branching := lastRaceBranching
+					if f != nil {
+						f.Case = c
+						return f
+					}
+					schedules++
+					st.Record(c, o.NonTrivial, []string{fmt.Sprintf("programs:%d+%d-calls", len(pa), len(pb))})
+					for j := len(prefix); j < len(branching); j++ {
+						for ch := 1; ch < branching[j]; ch++ {
+							next := append([]int(nil), prefix...)
+							for len(next) < j {
+								next = append(next, 0)
+							}
+							next = append(next, ch)
+							if f := dfs(next); f != nil {
+								return f
+							}
+						}
+					}
+					return nil
+				}
+				if f := dfs(nil); f != nil {
+					p := st.Fail(f)
+					t.Fatalf("VERIF-FAIL signature=%s step=%d replay=%s\n%s", f.Signature, f.Step, p, f.Msg)
+				}
+			}
+		}
+	}
+	fmt.Printf("VERIF-DONE cases=%d\n", schedules)
+}
+
 // ---- domain C: reconciliation diff ---------------------------------------------------------------------
 
 type DiffCase struct {
@@ -761,3 +825,6 @@ func keysOf(m map[uint64]table.Table) []uint64 {
 func TestC14Diff(t *testing.T)        { vt.Check(t, prop, genDiff, runDiff) }
 func TestC14DiffReplay(t *testing.T)  { vt.Replay(t, prop, runDiff) }
 func TestC14DiffRegress(t *testing.T) { vt.Regress(t, prop, "testdata", runDiff) }
+
+// replay files written by the enumeration carry its test name
+func TestC14RaceExhaustiveReplay(t *testing.T) { vt.Replay(t, prop, runRace) }
